@@ -491,9 +491,14 @@ fn instantiate_branch_condition_result_var_declarations_and_matched_or_variant_i
                         // No variable declarations in OR variants.
                         // This also means we don't have tuples because they are created only to extract variables.
                         // In this case we only have to calculate the final condition.
+                        // An alternative without a condition (e.g., `_`) always matches,
+                        // and so does the whole OR: it has no condition either.
+                        let has_unconditional_alternative =
+                            conditions.iter().any(|condition| condition.is_none());
                         let conditions = conditions.into_iter().flatten().collect_vec();
                         let condition = match conditions[..] {
                             [] => None,
+                            _ if has_unconditional_alternative => None,
                             _ => Some(build_condition_expression(&conditions[..], &|lhs, rhs| {
                                 instantiate.lazy_or(lhs, rhs)
                             })),
